@@ -58,16 +58,20 @@ theorem bigAndNeg_eval (σ) (c : List Lit) : (bigAndNeg c).eval σ = !(cEval σ 
 inductive Node where
   | leafA (c : Clause) (lab : Var → Lbl)
   | leafB (c : Clause) (lab : Var → Lbl)
+  /-- a theory lemma with the partial interpolant the theory's interpolation procedure gives for it -/
+  | leafT (c : Clause) (lab : Var → Lbl) (i : F)
   | res (n1 n2 : Node) (p : Var)      -- n1 contains p positively, n2 negatively
 
 def Node.clause : Node → Clause
   | .leafA c _ => c
   | .leafB c _ => c
+  | .leafT c _ _ => c
   | .res n1 n2 p => (n1.clause.filter (fun l => l.var != p)) ++ (n2.clause.filter (fun l => l.var != p))
 
 def Node.lab : Node → Var → Lbl
   | .leafA _ lab => lab
   | .leafB _ lab => lab
+  | .leafT _ lab _ => lab
   | .res n1 n2 _ => fun v => (n1.lab v).join (n2.lab v)
 
 /-- restriction of the node clause to literals whose label has the a-bit / b-bit -/
@@ -80,6 +84,7 @@ def onlyA (c : Clause) (lab : Var → Lbl) : Clause := c.filter (fun l => (lab l
 def Node.itp : Node → F
   | .leafA c lab => bigOr (onlyB c lab)
   | .leafB c lab => bigAndNeg (onlyA c lab)
+  | .leafT _ _ i => i
   | .res n1 n2 p =>
     match ((n1.lab p).join (n2.lab p)).a, ((n1.lab p).join (n2.lab p)).b with
     | true, false => .or n1.itp n2.itp
@@ -94,6 +99,7 @@ namespace Osmt.Itp
 def Node.structOk : Node → Bool
   | .leafA c lab => c.all (fun l => (lab l.var).a || (lab l.var).b)
   | .leafB c lab => c.all (fun l => (lab l.var).a || (lab l.var).b)
+  | .leafT c lab _ => c.all (fun l => (lab l.var).a || (lab l.var).b)
   | .res n1 n2 p => n1.structOk && n2.structOk &&
       n1.clause.all (fun l => l.var != p || !l.neg) && n2.clause.all (fun l => l.var != p || l.neg) &&
       n1.clause.any (fun l => l.var == p) && n2.clause.any (fun l => l.var == p)
@@ -102,6 +108,9 @@ def Node.structOk : Node → Bool
 def Node.leavesOk (A B : Asg → Prop) : Node → Prop
   | .leafA c _ => ∀ σ, A σ → cEval σ c = true
   | .leafB c _ => ∀ σ, B σ → cEval σ c = true
+  -- what theory interpolation owes for a lemma: the A-coloured part of its negation gives i, the B-coloured part refutes it
+  | .leafT c lab i => (∀ σ, A σ → cEval σ (restrA c lab) = false → i.eval σ = true) ∧
+                      (∀ σ, B σ → cEval σ (restrB c lab) = false → i.eval σ = false)
   | .res n1 n2 _ => n1.leavesOk A B ∧ n2.leavesOk A B
 
 /-- the labellings that do not depend on proof statistics (`setLeafMcMillanLabeling`, `setLeafPudlakLabeling`,
